@@ -27,7 +27,17 @@ RULE = ("cases: (i) integers - every |v| <= 2^18 (thorough 2^22), +-2^k+d for k 
         "from 0), decoders built through the public constructor with our own non_minimal_data_handler, opcode_list, and the "
         "interpreter (push in the locking script, in the unlocking script, in an unexecuted branch) - each with and without "
         "minimal-push verification; pycoin's own pushes are asked about through the same entry points; compile_push_data_list "
-        "with None entries and write_push_data into a non-empty stream. Non-trivial: v != 0, non-empty string, any push, "
+        "with None entries and write_push_data into a non-empty stream; (viii) caller-owned mutable objects - the list opcode_list "
+        "returns (asked of a script for the first time in the process, and again) edited in place by each of append / slice "
+        "assignment / reverse / clear / del / insert / item assignment / extend / pop / sort / *=, then the same script bytes asked "
+        "about again through disassemble, opcode_list, a copy of the bytes and another network's script tools; every other value "
+        "the entry points return edited where it is editable and the query repeated; scripts given as bytearray to "
+        "disassemble / opcode_list / get_opcodes / get_opcode, data lists (with None entries, and with an item the call refuses "
+        "after the good ones) to compile_push_data_list / write_push_data, number encodings as bytearray / list to "
+        "int_from_script_bytes - each twice with the same object; ScriptStreamer / ScriptTools built twice from the same lists, "
+        "which are then emptied; (ix) one long run - more than 2^16 + 100 (thorough 2^17 + 100) distinct scripts with distinct "
+        "pushes through disassemble / compile on the one shared ScriptTools in one process, re-querying the first scripts and "
+        "those asked 1, 2, 511..513, 1023, 1024, 65,535..65,537 scripts ago. Non-trivial: v != 0, non-empty string, any push, "
         "script with >= 1 instruction; distinct by (kind, value).")
 ASSUMPTIONS = [
     "vmon/refs/scriptnum.py is a faithful port of Core's CScriptNum::serialize/set_vch/minimality test, GetScriptOp, "
@@ -50,6 +60,10 @@ ASSUMPTIONS = [
     "decoding of NON-minimal number encodings without require_minimal, rejection of non-minimal pushes under "
     "verify_minimal_data, and the text form of scripts outside 'known opcodes and minimal pushes' are not judged "
     "(the statement is silent; C03 covers the interpreter side)",
+    "caller-owned objects: a bytearray script / list of data / bytearray number is a byte string (list) like any other, so when "
+    "the call accepts it the answer is judged as for the same bytes, the object must be unchanged after the call (also after a "
+    "call that refused one of the items) and the same object passed again must get the same answer; a refusal of such an "
+    "argument is not judged. A list pycoin returned belongs to the caller: editing it must not change any later answer",
     "in history shards the call that is made to fail is only observed (the statement does not say which texts compile() must "
     "reject); what is judged is the next well-formed query, whose expected result does not depend on earlier calls",
 ]
@@ -95,6 +109,9 @@ def plan(tier, seed):
     ns = 10 if q else 16
     for p in range(ns):
         shards.append({"kind": "scripts", "n": 3500 if q else 100000, "label": "scripts%d" % p})
+    shards.append({"kind": "mut", "n": 2000 if q else 40000, "label": "mut"})
+    # ONE process, one shared ScriptTools: more than 2^16 + 100 distinct scripts (2^17 + 100 in thorough) plus re-queries
+    shards.append({"kind": "long", "n": ((1 << 16) if q else (1 << 17)) + 300, "label": "long"})
     return shards
 
 
@@ -979,6 +996,9 @@ BAD_TOKENS = ["not-a-token", "[abc]", "[zz]", "[", "]", "0xzz", "0x1", "op_dup",
               "1e5", "--1", "[0x12]", "\u00e9", "0x", "[]", "99999999999999999999999", "OP_", "''"]
 
 
+N_BAD_ARG = 32
+
+
 def _hist_probes(M, s, d, v):
     """One well-formed query of every class the property names -> [(tag, observed, expected)] for those that are wrong."""
     out = []
@@ -1039,7 +1059,21 @@ def _hist_disturb(dist, M, keep):
                  lambda: M.ints[0].int_from_script_bytes(b"\x05\x00", require_minimal=True), lambda: M.tools.compile(None),
                  lambda: M.tools.disassemble(None), lambda: M.streamer.get_opcode(b"", 0),
                  lambda: M.streamer.get_opcode(b"\x51", 5), lambda: M.tools.compile_push_data_list([b"abc" * 30, None, "x"]),
-                 lambda: M.tools.write_push_data([b"abc", b"de"], None)]
+                 lambda: M.tools.write_push_data([b"abc", b"de"], None),
+                 # refused part-way through / wrong scalar types, every entry point
+                 lambda: M.ints[-1].int_to_script_bytes(None), lambda: M.ints[-1].int_to_script_bytes(300.5),
+                 lambda: M.ints[-1].int_from_script_bytes(None), lambda: M.ints[-1].int_from_script_bytes("ab", require_minimal=True),
+                 lambda: M.ints[-1].int_from_script_bytes([1, 300, 2]), lambda: M.tools.compile_push_data_list(None),
+                 lambda: M.tools.compile_push_data_list([b"ab", bytearray(b"cd"), b"ef"]),
+                 lambda: M.tools.write_push_data([b"abc", None, b"de"], __import__("io").BytesIO()),
+                 lambda: list(M.tools.get_opcodes(None)), lambda: list(M.tools.get_opcodes(b"\x51\x02\xaa\xbb\x52", pc="0")),
+                 lambda: list(M.tools.get_opcodes(b"\x51\x02\xaa\xbb\x52", verify_minimal_data=True, pc=1 << 32)),
+                 lambda: M.tools.opcode_list(5), lambda: M.tools.disassemble("OP_DUP"), lambda: M.tools.compile(b"OP_DUP OP_1"),
+                 lambda: M.tools.compile_expression(""), lambda: M.tools.compile("OP_1 [ab] 0x4c 0xzz"),
+                 lambda: M.streamer.get_opcode(b"\x4d\x01", 0, verify_minimal_data=True), lambda: M.streamer.get_opcode(None, 0),
+                 lambda: M.streamer.get_opcode(b"\x01\x05", "0", verify_minimal_data=True),
+                 lambda: M.streamer.compile_push_data(1 << 64), lambda: M.streamer.compile_push_data([b"ab"])]
+        assert len(calls) == N_BAD_ARG
         return "raised" if observe(calls[dist["which"] % len(calls)])[0] != "ok" else "returned"
     if k == "private_instance":
         # another ScriptStreamer / ScriptTools pair with different tables and another handler is built and used
@@ -1155,7 +1189,7 @@ def run_hist(spec, rec, M):
             t = _small_script(rng) + R.push_encode(bytes(rng.getrandbits(8) for _ in range(rng.choice([2, 40, 80, 300]))))
             dist = {"d": "truncated", "script": t[:len(t) - rng.choice([1, 1, 2, rng.randrange(1, 3)])]}
         elif k == 6:
-            dist = {"d": "bad_arg", "which": rng.randrange(11)}
+            dist = {"d": "bad_arg", "which": rng.randrange(N_BAD_ARG)}
         else:
             t = _small_script(rng)
             dist = {"d": "iterator", "script": t, "steps": rng.choice([0, 1, 2, 3, 1000]), "close": rng.random() < 0.3,
@@ -1170,10 +1204,469 @@ def run_hist(spec, rec, M):
             rec.sample({"op": "query after a failed call", "failed_call": dist, "then": "compile(disassemble(s)), get_opcodes, pushes, ints"})
 
 
+# -- caller-owned mutable objects ----------------------------------------------------------------
+# (a) containers pycoin hands back (the list of opcode_list, anything else that turns out to be a list / bytearray / dict) are the
+#     caller's: editing them in place must not change what the next query of the same script / data / number answers;
+# (b) bytearray / list arguments (where the call accepts them) are not modified by the call, and the same object passed again
+#     gets the same (right) answer.
+
+EDITS = ("append", "slice_assign", "reverse", "clear", "del_first", "insert", "setitem", "extend", "pop", "sort", "imul")
+
+
+def _edit_list(lst, how):
+    if how == "append":
+        lst.append("OP_NOT")
+    elif how == "slice_assign":
+        lst[0:2] = ["OP_SIZE", "OP_DROP", "OP_SHA256"]
+    elif how == "reverse":
+        lst.reverse()
+        lst.append("OP_1")          # a palindromic list is edited too
+    elif how == "clear":
+        del lst[:]
+    elif how == "del_first":
+        if lst:
+            del lst[0]
+        else:
+            lst.append("OP_DUP")
+    elif how == "insert":
+        lst.insert(len(lst) // 2, "[beef]")
+    elif how == "setitem":
+        if lst:
+            lst[-1] = "OP_RETURN" if lst[-1] != "OP_RETURN" else "OP_DUP"
+        else:
+            lst.append("OP_RETURN")
+    elif how == "extend":
+        lst.extend(["OP_2DROP", "[00]"])
+    elif how == "pop":
+        if lst:
+            lst.pop()
+        else:
+            lst.append("OP_0")
+    elif how == "sort":
+        lst.sort()
+        lst.insert(0, "OP_VERIFY")
+    elif how == "imul":
+        lst *= 2
+        lst.append("OP_NOP")
+    else:
+        raise ValueError(how)
+
+
+def _scribble(x, depth=0):
+    """Edit in place whatever is editable in a value pycoin returned -> number of containers edited."""
+    if isinstance(x, bytearray):
+        x.reverse()
+        x.append(0xff)
+        x[0:1] = b"\x4c\x4c"
+        return 1
+    if isinstance(x, list):
+        n = sum(_scribble(e, depth + 1) for e in x) if depth < 3 else 0
+        x.reverse()
+        x.append(None)
+        return n + 1
+    if isinstance(x, dict):
+        x.clear()
+        x["OP_0"] = 0x51
+        return 1
+    if isinstance(x, set):
+        x.clear()
+        return 1
+    if isinstance(x, tuple) and depth < 3:
+        return sum(_scribble(e, depth + 1) for e in x)
+    return 0
+
+
+def _other_tools(M):
+    """network.script of the other registered networks (today one shared object; asked through each name all the same)."""
+    if getattr(M, "others", None) is None:
+        import importlib
+        M.others = []
+        for name in ("ltc", "xtn", "bch"):
+            st, mod = observe(importlib.import_module, "pycoin.symbols." + name)
+            if st == "ok" and getattr(getattr(mod, "network", None), "script", None) is not None:
+                M.others.append((name, mod.network.script))
+    return M.others
+
+
+def _text_back(M, tools, entry, s):
+    """-> None when compile(text of s) == s, else what came instead."""
+    if entry == "disassemble":
+        st, text = observe(tools.disassemble, s)
+    else:
+        st, text = observe(tools.opcode_list, s)
+        if st == "ok":
+            st, text = observe(" ".join, text)
+    if st != "ok":
+        return ["%s raised" % entry, text]
+    st, back = observe(M.tools.compile, text)
+    if st != "ok":
+        return [str(text)[:160], back]
+    if bytes(back) != s:
+        return [str(text)[:160], bytes(back)[:40]]
+    return None
+
+
+def check_returned(case, rec, M, seen):
+    """case: script (known opcodes, minimal pushes), edit, first ('opcode_list' / 'disassemble': what is asked of a script
+    first), rounds. The list opcode_list returns is edited in place; the script is then asked about again by every spelling."""
+    s, how = case["script"], case["edit"]
+    assert R.parse(s) is not None
+    rec.case(("returned", s, how, case["first"], case["rounds"]), nontrivial=len(s) > 0)
+    fresh = s not in seen
+    seen.add(s)
+    if case["first"] == "disassemble":
+        if _text_back(M, M.tools, "disassemble", s) is not None:
+            rec.ev("mut.unprovoked(reported by the script shards)")
+            return
+        fresh = False
+    for rnd in range(case["rounds"]):
+        st, lst = observe(M.tools.opcode_list, s)
+        if st != "ok" or not isinstance(lst, list) or observe(M.tools.compile, " ".join(map(str, lst))) != ("ok", s):
+            rec.ev("mut.unprovoked(reported by the script shards)")
+            return
+        _edit_list(lst, how)
+        rec.ev("mut.opcode_list.%s_query_edited" % ("first" if fresh and rnd == 0 else "repeat"))
+        rec.ev("mut.edit." + how)
+        asks = [("disassemble", M.tools, s), ("opcode_list", M.tools, s), ("disassemble", M.tools, bytes(bytearray(s)))]
+        asks += [("disassemble", t, s) for name, t in _other_tools(M)[rnd % 3:][:1]]
+        for entry, tools, arg in asks:
+            rec.ev("mut.requery_after_edit")
+            bad = _text_back(M, tools, entry, arg)
+            if bad is not None:
+                rec.violation("mutable.opcode_list_result_edit_changes_later_%s" % entry, case, bad, s[:40])
+                return
+    # everything else these entry points hand back: edited where editable, then asked again
+    d, v = case.get("data", b"\x07" * 3), int(case.get("v", 300))
+    exp, enc = R.push_encode(d), R.serialize(v)
+    ref = [(op, R.stack_value(op, data), pc, npc) for op, data, pc, npc in R.parse(s)]
+    edited = 0
+    for rnd in (0, 1):
+        n = 0
+        got = []
+        for call in (lambda: M.tools.compile(" ".join(M.tools.opcode_list(s))), lambda: M.streamer.compile_push_data(d),
+                     lambda: M.tools.compile_push_data_list([d, None, d[:1]]), lambda: M.ints[-1].int_to_script_bytes(v),
+                     lambda: M.streamer.get_opcode(exp, 0), lambda: M.streamer.get_opcode(exp, 0, verify_minimal_data=True),
+                     lambda: tuple(M.tools.get_opcodes(s))):
+            st, r = observe(call)
+            got.append(jx_norm(r) if st == "ok" else ("raised", type(r).__name__))
+            if st == "ok":
+                n += _scribble(r)
+        want = [s, exp, exp + R.push_encode(d[:1]), enc, (exp[0], d, len(exp), True), (exp[0], d, len(exp), True)]
+        rec.ev("mut.returned_values_requeried")
+        if n:
+            rec.ev("mut.returned_value_was_editable")
+        why = "mutable.returned_value_edit_changes_later_" if edited else "hist.repeated_query_differs."
+        edited += n
+        seq = got[6]
+        seq_ok = isinstance(seq, tuple) and len(seq) == len(ref) and all(
+            isinstance(g, tuple) and len(g) == 4 and (g[0], g[2], g[3]) == (w[0], w[2], w[3]) and (w[1] is None or g[1] == w[1])
+            for g, w in zip(seq, ref))
+        names = ("compile", "compile_push_data", "compile_push_data_list", "int_to_script_bytes", "get_opcode", "get_opcode")
+        for name, g, w in zip(names, got, want):
+            if g != w and not (name == "get_opcode" and isinstance(g, tuple) and len(g) == 4 and g[:3] == w[:3] and g[3]):
+                if rnd:
+                    rec.violation(why + name, case, g, w)
+                else:
+                    rec.ev("mut.unprovoked(reported by the other shards)")
+                return
+        if not seq_ok:
+            if rnd:
+                rec.violation(why + "get_opcodes", case, seq[:4] if isinstance(seq, tuple) else seq,
+                              [list(w) for w in ref[:4]])
+            else:
+                rec.ev("mut.unprovoked(reported by the other shards)")
+            return
+
+
+def jx_norm(r):
+    """A returned value as plain immutable data (bytes subclasses -> bytes, lists -> tuples)."""
+    if isinstance(r, (bytes, bytearray)):
+        return bytes(r)
+    if isinstance(r, (list, tuple)):
+        return tuple(jx_norm(e) for e in r)
+    return r
+
+
+def _same_items(lst, snap):
+    return len(lst) == len(snap) and all(a is b for a, b in zip(lst, snap))
+
+
+def check_args(case, rec, M):
+    """case: script (parsable), datas (list of bytes / None), s (candidate number encoding). Every entry point that takes a
+    byte string or a list is given a caller-owned mutable object, twice."""
+    s, datas, enc = case["script"], case["datas"], case["s"]
+    ref = R.parse(s)
+    assert ref is not None
+    rec.case(("args", s, tuple(datas), enc), nontrivial=True)
+    want_seq = tuple((op, R.stack_value(op, data), pc, npc) for op, data, pc, npc in ref)
+    mid = ref[len(ref) // 2][2] if ref else 0
+
+    def seq_ok(got, want):
+        return isinstance(got, tuple) and len(got) == len(want) and all(
+            isinstance(g, tuple) and len(g) == 4 and (g[0], g[2], g[3]) == (w[0], w[2], w[3]) and (w[1] is None or g[1] == w[1])
+            for g, w in zip(got, want))
+
+    def one_ok(got):
+        w = [x for x in want_seq if x[2] == mid]
+        return bool(w) and isinstance(got, tuple) and len(got) == 4 and (got[0], got[2]) == (w[0][0], w[0][3]) and got[3] \
+            and (w[0][1] is None or got[1] == w[0][1])
+
+    # 1. the script as a bytearray
+    entries = [("disassemble", lambda a: M.tools.disassemble(a), lambda g: observe(M.tools.compile, g) == ("ok", s)),
+               ("opcode_list", lambda a: M.tools.opcode_list(a), lambda g: observe(lambda: M.tools.compile(" ".join(g))) == ("ok", s)),
+               ("get_opcodes", lambda a: list(M.tools.get_opcodes(a)), lambda g: seq_ok(g, want_seq)),
+               ("get_opcodes.verify_minimal_data", lambda a: list(M.tools.get_opcodes(a, True)), lambda g: seq_ok(g, want_seq)),
+               ("get_opcodes.pc", lambda a: list(M.tools.get_opcodes(a, pc=mid)), lambda g: seq_ok(g, tuple(x for x in want_seq if x[2] >= mid)))]
+    if ref:
+        entries += [("get_opcode", lambda a: M.streamer.get_opcode(a, mid), one_ok),
+                    ("get_opcode.verify_minimal_data", lambda a: M.streamer.get_opcode(a, mid, verify_minimal_data=True), one_ok)]
+    for name, call, good in entries:
+        arg = bytearray(s)
+        st, r = observe(call, s)
+        if st != "ok" or not good(r if isinstance(r, str) else jx_norm(r)):
+            rec.ev("mut.unprovoked(reported by the other shards)")
+            continue
+        for nth in (0, 1):
+            st, r = observe(call, arg)
+            if bytes(arg) != s:
+                rec.violation("mutable.script_argument_modified." + name, dict(case, entry=name), bytes(arg)[:40], s[:40])
+                break
+            if st != "ok":
+                rec.ev("mut.bytearray_script_refused(unjudged)")
+                break
+            rec.ev("mut.bytearray_script." + name)
+            r = r if isinstance(r, str) else jx_norm(r)
+            if not good(r):
+                rec.violation("mutable.bytearray_script_wrong_answer.%s.%s" % (name, "second_call" if nth else "first_call"),
+                              dict(case, entry=name), r if isinstance(r, str) else list(r)[:4], "as for the same bytes")
+                break
+    # 2. the list of data items: not edited by the call (also when the call refuses an item half-way), same answer twice
+    exp = b"".join(R.push_encode(d) for d in datas if d is not None)
+    import io
+    for name, call in (("compile_push_data_list", lambda a: M.tools.compile_push_data_list(a)),
+                       ("write_push_data", lambda a: _written(M, a))):
+        arg = [d for d in datas if d is not None] if name == "write_push_data" else list(datas)
+        snap = list(arg)
+        for nth in (0, 1):
+            st, r = observe(call, arg)
+            if not _same_items(arg, snap):
+                rec.violation("mutable.list_argument_modified." + name, dict(case, entry=name), arg[:6], snap[:6])
+                break
+            if st != "ok":
+                rec.ev("mut.list_refused(unjudged)")
+                break
+            rec.ev("mut.list_argument." + name)
+            if bytes(r) != exp:
+                rec.violation("mutable.list_argument_wrong_answer.%s.%s" % (name, "second_call" if nth else "first_call"),
+                              dict(case, entry=name), bytes(r)[:24], exp[:24])
+                break
+        # the same list with an item the call must refuse after the good ones: the caller's list stays as it was
+        bad = snap + [case.get("bad_item", 5)] + snap[:1]
+        snap2 = list(bad)
+        st, r = observe(call, bad)
+        rec.ev("mut.list_argument.refused_item" if st != "ok" else "mut.list_argument.odd_item_accepted(unjudged)")
+        if not _same_items(bad, snap2):
+            rec.violation("mutable.list_argument_modified.%s.refused_call" % name, dict(case, entry=name), bad[:6], snap2[:6])
+        st, r = observe(call, list(snap))
+        if st != "ok" or bytes(r) != exp:
+            rec.violation("mutable.answer_after_refused_list." + name, dict(case, entry=name), r if st != "ok" else bytes(r)[:24], exp[:24])
+    # bytearray items: refused today (unhashable); when accepted, right and untouched
+    for d in datas:
+        if d:
+            arg = bytearray(d)
+            st, r = observe(M.streamer.compile_push_data, arg)
+            if bytes(arg) != d:
+                rec.violation("mutable.data_argument_modified.compile_push_data", case, bytes(arg)[:24], d[:24])
+            elif st == "ok":
+                rec.ev("mut.bytearray_data_accepted")
+                if bytes(r) != R.push_encode(d):
+                    rec.violation("mutable.bytearray_data_wrong_answer.compile_push_data", case, bytes(r)[:24], R.push_encode(d)[:24])
+            else:
+                rec.ev("mut.bytearray_data_refused(unjudged)")
+            break
+    # 3. a number encoding as a bytearray / list of byte values
+    minimal, val = R.is_minimal(enc), R.set_vch(enc)
+    for IS in M.ints:
+        for kind, make in (("bytearray", bytearray), ("list", list)):
+            for rm in (False, True):
+                arg = make(enc)
+                for nth in (0, 1):
+                    st, r = observe(IS.int_from_script_bytes, arg, require_minimal=rm)
+                    if _as_bytes(arg) != enc:
+                        rec.violation("mutable.number_argument_modified.int_from_script_bytes", dict(case, arg=kind), repr(arg)[:80], enc)
+                        break
+                    if st != "ok":
+                        if minimal and kind == "bytearray":
+                            rec.ev("mut.number_argument_refused(unjudged)")
+                        break
+                    rec.ev("mut.number_argument." + kind)
+                    if minimal and r != val:
+                        rec.violation("mutable.number_argument_wrong_answer.%s" % ("second_call" if nth else "first_call"),
+                                      dict(case, arg=kind), r, val)
+                        break
+                    if not minimal and rm:
+                        why = "single_byte_zero" if len(enc) == 1 else "padded" if (enc[-1] & 0x7f) == 0 else "other"
+                        rec.violation("scriptnum.accepts_non_minimal." + why, dict(case, arg=kind), r, "rejected")
+                        break
+
+
+def _as_bytes(arg):
+    st, b = observe(lambda: bytes(bytearray(arg)))
+    return b if st == "ok" else None
+
+
+def _written(M, datas):
+    import io
+    f = io.BytesIO()
+    M.tools.write_push_data(datas, f)
+    return f.getvalue()
+
+
+def check_ctor_args(rec, M, which):
+    """ScriptStreamer / ScriptTools built twice from the SAME caller-owned lists and dict, which are emptied afterwards: both
+    pairs (and the shared one) still answer as the reference does. Judged by answers only."""
+    from pycoin.vm.ScriptStreamer import ScriptStreamer
+    from pycoin.vm.ScriptTools import ScriptTools
+    from pycoin.coins.bitcoin import ScriptStreamer as B
+    from pycoin.satoshi import opcodes
+    from pycoin.satoshi.IntStreamer import IntStreamer
+    rec.case(("ctor_args", which))
+    consts, sized, var = B.make_opcode_const_list(), B.make_opcode_sized_list(), B.make_opcode_variable_list()
+    names = list(opcodes.OPCODE_LIST)
+    lookup = dict(names)
+    pairs = []
+    for _ in (0, 1):
+        st, pst = observe(ScriptStreamer, consts, sized, var, lookup, lambda msg: None)
+        if st != "ok":
+            rec.ev("mut.ctor_refused(unjudged)")
+            return
+        st, pt = observe(ScriptTools, names, IntStreamer, pst)
+        if st != "ok":
+            rec.ev("mut.ctor_refused(unjudged)")
+            return
+        pairs.append((pst, pt))
+    if which & 1:
+        del consts[:], sized[:], var[:], names[:]
+        lookup.clear()
+        rec.ev("mut.ctor_args_emptied")
+    rec.ev("mut.ctor_same_args_twice")
+    datas = [b"", b"\x01", b"\x81", b"\x10", b"\x11", b"ab", b"c" * 75, b"d" * 76, b"e" * 255, b"f" * 256]
+    s = b"\x76\xa9" + b"".join(R.push_encode(d) for d in datas) + b"\x88\xac"
+    for n, (pst, pt) in enumerate(pairs + [(M.streamer, M.tools)]):
+        who = ("first", "second", "shared")[n]
+        for d in datas:
+            st, p = observe(pst.compile_push_data, d)
+            if st != "ok" or bytes(p) != R.push_encode(d):
+                rec.violation("mutable.ctor_args_reuse.compile_push_data." + who, {"kind": "ctor_args", "which": which}, p, R.push_encode(d))
+                return
+        st, back = observe(lambda: pt.compile(pt.disassemble(s)))
+        if st != "ok" or bytes(back) != s:
+            rec.violation("mutable.ctor_args_reuse.roundtrip." + who, {"kind": "ctor_args", "which": which}, back, s[:40])
+            return
+        st, got = observe(lambda: [(g[0], g[2], g[3]) for g in pt.get_opcodes(s, True)])
+        want = [(op, pc, npc) for op, data, pc, npc in R.parse(s)]
+        if st != "ok" or got != want:
+            rec.violation("mutable.ctor_args_reuse.get_opcodes." + who, {"kind": "ctor_args", "which": which}, got if st != "ok" else got[:4], want[:4])
+            return
+
+
+def run_mut(spec, rec, M):
+    rng = shard_rng(spec["seed"], PROPERTY, spec["tier"], spec["shard"])
+    seen = set()
+    ops = R.KNOWN_NONPUSH_OPCODES
+    # scripts nobody has asked about in this process yet: the well-known templates and every single opcode come first
+    h20, h32, pk = b"\xa7" * 20, b"\x5c" * 32, b"\x02" + b"\x9b" * 32
+    templates = [b"\x76\xa9" + R.push_encode(h20) + b"\x88\xac", b"\xa9" + R.push_encode(h20) + b"\x87", b"\x00" + R.push_encode(h20),
+                 b"\x00" + R.push_encode(h32), R.push_encode(pk) + b"\xac", b"\x51" + R.push_encode(pk) * 2 + b"\x52\xae",
+                 b"\x6a" + R.push_encode(b"hello"), b"", b"\x00", b"\x51",
+                 b"".join(R.push_encode(d) for d in (b"", b"\x07", b"\x55" * 75, b"\x66" * 76, b"\x77" * 256)) + b"\x6d\x6d\x75\x51"]
+    i = 0
+    for s in templates + [bytes([a]) for a in ops]:
+        for first in ("opcode_list", "disassemble"):
+            # the same bytes under both orders need two scripts: the second one gets a trailing OP_NOP
+            t = s if first == "opcode_list" else s + b"\x61"
+            check_returned({"kind": "returned", "script": t, "edit": EDITS[i % len(EDITS)], "first": first, "rounds": 2 + i % 2}, rec, M, seen)
+            i += 1
+    for k in range(spec["n"]):
+        s = _rand_script(rng, small=True)
+        if k % 3:
+            s += R.push_encode(k.to_bytes(3, "big") + bytes(rng.getrandbits(8) for _ in range(rng.choice([0, 5, 17, 72, 73, 253]))))   # fresh for sure
+        if k % 5 == 0:
+            s += bytes([rng.choice(ops)])
+        L = rng.choice([0, 1, 1, 2, 20, 75, 76, 255, 256])
+        d = bytes([rng.choice([0, 1, 16, 17, 0x81, 0x80, rng.getrandbits(8)])]) if L == 1 else bytes(rng.getrandbits(8) for _ in range(L))
+        v = rng.choice([0, 1, -1, 127, 128, -128, 255, 256, 32767, 32768, rng.randrange(-(1 << 40), 1 << 40)])
+        check_returned({"kind": "returned", "script": s, "edit": EDITS[(k + k // len(EDITS)) % len(EDITS)],
+                        "first": "disassemble" if k % 4 == 1 else "opcode_list", "rounds": rng.choice([1, 2, 3]), "data": d, "v": v}, rec, M, seen)
+        if k % 2 == 0:
+            datas = [rng.choice([None, b"", d, d[:1], bytes(rng.getrandbits(8) for _ in range(rng.choice([1, 2, 33, 76])))])
+                     for _ in range(rng.choice([0, 1, 2, 3, 6]))]
+            m = rng.random()
+            enc = R.serialize(v) if m < 0.5 else bytes(rng.getrandbits(8) for _ in range(rng.choice([1, 2, 4, 9]))) if m < 0.8 \
+                else R.serialize(v) + rng.choice([b"\x00", b"\x80"])
+            check_args({"kind": "args", "script": s, "datas": datas, "s": enc,
+                        "bad_item": rng.choice([5, "ab", 1.5, ("x",)])}, rec, M)
+        if k % 64 == 0:
+            check_ctor_args(rec, M, (k // 64) % 2)
+        if k == 0:
+            rec.sample({"op": "opcode_list(s) edited in place, then s asked about again", "script": s, "edit": EDITS[0]})
+
+
+# -- the 65,536th operation ----------------------------------------------------------------------
+# One process, the one shared ScriptTools / ScriptStreamer: more than 2^16 + 100 text round trips of distinct scripts (each
+# holding a distinct push), interleaved with re-queries of the very first scripts, of the scripts asked 1 / 511..513 / 65,535..
+# 65,537 operations ago. Oracle: byte identity of compile(disassemble(s)) with the script the generator built from the
+# reference push encoder; every 16th also through opcode_list and get_opcodes against the reference parse.
+
+def run_long(spec, rec, M):
+    """spec n = number of DISTINCT scripts; every third distinct script is followed by a re-query of an earlier one."""
+    rng = shard_rng(spec["seed"], PROPERTY, spec["tier"], spec["shard"])
+    ops = R.KNOWN_NONPUSH_OPCODES
+    hist = []
+    tools = M.tools
+    lens = [0, 1, 2, 5, 17, 29, 72]
+    done = 0
+    case = {"kind": "long", "n": spec["n"], "seed": spec["seed"], "tier": spec["tier"], "shard": spec["shard"]}
+    for i in range(spec["n"]):
+        d = i.to_bytes(3, "big") + bytes(rng.getrandbits(8) for _ in range(lens[i % 7]))
+        s = bytes([ops[i % len(ops)]]) + R.push_encode(d) + (bytes([rng.choice(ops)]) if i & 8 else R.push_encode(d[2:3]))
+        hist.append(s)
+        todo = [s]
+        if i % 3 == 2:
+            ago = rng.choice([1, 2, 511, 512, 513, 1023, 1024, 65535, 65536, 65537, len(hist), len(hist) - 1, rng.randrange(1, len(hist) + 1)])
+            todo.append(hist[-ago] if 1 <= ago <= len(hist) else hist[rng.randrange(min(8, len(hist)))])
+            rec.ev("long.requery")
+        for s in todo:
+            st, text = observe(tools.disassemble, s)
+            st2, got = observe(tools.compile, text) if st == "ok" else (st, text)
+            done += 1
+            if st2 != "ok" or bytes(got) != s:
+                rec.case(("long", done, s))
+                rec.violation("long_run.roundtrip_mismatch", dict(case, n=i + 1, operation=done),
+                              [str(text)[:120], got if st2 != "ok" else bytes(got)[:40]], s[:40])
+                return
+        if i % 16 == 0:
+            rec.case(("long", s))
+            st, lst = observe(tools.opcode_list, s)
+            st2, got = observe(lambda: tools.compile(" ".join(lst)))
+            ref = [(op, pc, npc) for op, data, pc, npc in R.parse(s)]
+            st3, seq = observe(lambda: [(g[0], g[2], g[3]) for g in tools.get_opcodes(s, True)])
+            if st != "ok" or st2 != "ok" or bytes(got) != s or st3 != "ok" or seq != ref:
+                rec.violation("long_run.decode_mismatch", dict(case, n=i + 1, operation=done), [lst, seq], [s[:40], ref])
+                return
+    rec.ev("long.distinct_scripts", len(hist))
+    rec.ev("long.operations_on_one_object", done)
+    rec.case(("long", "total", done))
+    if len(hist) > (1 << 16) + 100:
+        rec.ev("long.beyond_65536_distinct_scripts")
+    rec.sample({"op": "compile(disassemble(s)) on the shared ScriptTools", "operations_in_one_process": done, "distinct_scripts": len(hist)})
+
+
 # ---------------------------------------------------------------------------------------------
 
 _RUN = {"ints": run_ints, "int_edges": run_int_edges, "numbytes": run_numbytes, "push_small": run_push_small,
-        "push_len": run_push_len, "trunc": run_trunc, "truncm": run_truncm, "script_enum": run_script_enum, "scripts": run_scripts, "hist": run_hist}
+        "push_len": run_push_len, "trunc": run_trunc, "truncm": run_truncm, "script_enum": run_script_enum, "scripts": run_scripts, "hist": run_hist,
+        "mut": run_mut, "long": run_long}
 _REQ = {"ints": ["int_to_script_bytes", "int_from_script_bytes"], "int_edges": ["int_to_script_bytes", "int_from_script_bytes"],
         "numbytes": ["int_from_script_bytes.require_minimal", "int_from_script_bytes", "int_to_script_bytes", "numbytes.minimal",
                      "numbytes.nonminimal", "numbytes.len_3..8", "numbytes.len_9..11", "numbytes.len_12.."],
@@ -1196,7 +1689,13 @@ _REQ = {"ints": ["int_to_script_bytes", "int_from_script_bytes"], "int_edges": [
         "scripts": ["compile", "disassemble", "opcode_list", "get_opcodes", "get_opcodes.verify_minimal_data", "get_opcodes.start_pc"],
         "hist": ["hist.query_after_disturbance", "hist.disturbance_raised", "hist.disturbance.bad_text", "hist.disturbance.iterator", "hist.disturbance.private_instance",
                  "hist.disturbance.bad_expression", "hist.disturbance.nonminimal_decode", "hist.disturbance.truncated",
-                 "hist.disturbance.bad_arg", "get_opcodes.interleaved"]}
+                 "hist.disturbance.bad_arg", "get_opcodes.interleaved"],
+        "mut": ["mut.opcode_list.first_query_edited", "mut.opcode_list.repeat_query_edited", "mut.requery_after_edit",
+                "mut.returned_values_requeried", "mut.bytearray_script.disassemble", "mut.bytearray_script.opcode_list",
+                "mut.bytearray_script.get_opcodes", "mut.bytearray_script.get_opcode", "mut.list_argument.compile_push_data_list",
+                "mut.list_argument.write_push_data", "mut.list_argument.refused_item", "mut.number_argument.bytearray",
+                "mut.ctor_same_args_twice", "mut.ctor_args_emptied"] + ["mut.edit." + e for e in EDITS],
+        "long": ["long.beyond_65536_distinct_scripts", "long.requery"]}
 
 # push forms / length classes each push_len shard must have reached (by its first length)
 _REQ_PUSH_LEN = {0: ["push.form.op_0", "push.form.op_n", "push.form.op_1negate", "push.form.direct", "push.form.pushdata1",
@@ -1254,6 +1753,25 @@ def replay_case(case, rec):
                 c[k] = b""
         c["disturb"] = _fix_script(c["disturb"])
         check_hist(c, rec, M, [])
+    elif kind == "returned":
+        c = dict(case)
+        for k in ("script", "data"):
+            if k in c and not isinstance(c[k], bytes):
+                c[k] = b""
+        check_returned(c, rec, M, set())
+    elif kind == "args":
+        c = dict(case)
+        for k in ("script", "s"):
+            if not isinstance(c[k], bytes):
+                c[k] = b""
+        c["datas"] = [d if isinstance(d, bytes) or d is None else b"" for d in c["datas"]]
+        c.pop("entry", None)
+        c.pop("arg", None)
+        check_args(c, rec, M)
+    elif kind == "ctor_args":
+        check_ctor_args(rec, M, int(case["which"]))
+    elif kind == "long":
+        run_long({"n": int(case["n"]), "seed": case["seed"], "tier": case["tier"], "shard": case["shard"]}, rec, M)
     elif kind == "interleave":
         c = dict(case)
         for k in ("a", "b"):
